@@ -67,6 +67,53 @@ def takesReadLock (t : LockTable) (name : String) : Bool :=
   | some evs => evs.contains .rlock
   | none => false
 
+/-! ### methods called from INSIDE a transaction body
+
+  `Generated.dbInTxPrograms`: every exported DbImpl method on the path taken when it is called from inside a
+  running transaction (for Update / Batch: `ctx.Tx() != nil`, no lock, `fn(ctx)`).  `Generated.dbInTxApis`: the
+  methods a transaction body calls — those that take the transaction as a parameter, and those the repository
+  itself calls inside a function passed to Update / View / Batch (Migrate: RootBucket, SnapshotInTx,
+  GetDefaultSnapshotPath).  The caller holds the transaction's read hold, so such a method must not take the
+  read lock itself.  (The other lock-taking entry points open a transaction of their own: calling them from
+  inside a transaction body NESTS transactions; they take the read lock recursively by design, which is what
+  the comments in RootBucket / SnapshotInTx say deadlocks with a waiting restore.) -/
+
+/-- a transaction whose body calls the method: RLock; begin bolt tx; the method's in-transaction path; RUnlock -/
+def inTxCall (api : List TxAct) : List TxAct := [.rlock, .read] ++ api ++ [.runlock]
+
+def inTxProg (t : LockTable) (name : String) : Option (List TxAct) := (txProg t name).map inTxCall
+
+/-- every method a transaction body calls composes to a flat (non-recursive) transaction program -/
+def inTxApisFlat (apis : List (String × String)) (t : LockTable) : Bool :=
+  apis.all fun a => match inTxProg t a.1 with
+    | some p => flat 0 p
+    | none => false
+
+/-- helpers that take the read lock BY DESIGN although they open no transaction: `Stats()` reads the handle and
+    has no transaction parameter to tell it that the caller already holds the lock.  Calling it from inside a
+    transaction body is a recursive acquisition (deadlock with a waiting restore: the model says so, the staged
+    run shows it); nothing in the repository does. -/
+def lockByDesign : List String := ["Stats"]
+
+def lifecycle : List String := ["Close", "Open", "RestoreSnapshot", "RestoreFromReader"]
+
+/-- must the method return when a transaction body calls it while a restore waits?  Yes unless it opens a
+    transaction of its own on that path (nesting transactions) or is in `lockByDesign` -/
+def mustReturnInTx (t : LockTable) (name : String) : Bool :=
+  match t.get name with
+  | some evs => !evs.contains .dbtx && !lockByDesign.contains name && !lifecycle.contains name
+  | none => false
+
+/-- every such method is free of the read lock on its in-transaction path -/
+def helpersLockFree (t : LockTable) : Bool :=
+  t.all fun e => !mustReturnInTx t e.1 || !(e.2.contains .rlock || e.2.contains .wlock)
+
+/-- does the method open a bolt transaction of its own? -/
+def opensTx (t : LockTable) (name : String) : Bool :=
+  match t.get name with
+  | some evs => evs.contains .dbtx
+  | none => false
+
 /-! ### the bolt transactions of the methods working on the `meta` bucket (regenerated as
     `Generated.dbMetaOps` by /verif/extract/dbmeta.go): what each transaction reads / writes of the three
     markers, where `idF` is called, which `if` guards the acting part and on values read where -/
